@@ -313,3 +313,60 @@ def rule_clip_before_cast(ctx, R: str):
   ctx.check(R, 'np.clip' in src and 'np.rint' in src, rc.node, rc, '_round_and_clip', '_round_and_clip no longer rounds to nearest and clips')
   if n_sites < 3:
     raise index.AnalysisError(f'{R}: only {n_sites} integer cast sites found')
+
+
+# ------------------------------------------------- copy-construction completeness
+def rule_rebuild_completeness(ctx, R: str, modules=None):
+  """A dataclass object rebuilt from the fields of another instance of the same
+  class must carry over EVERY field: an omitted field silently falls back to
+  its default (e.g. symmetric=True)."""
+  ctx.rule(R, 'objects rebuilt field-by-field from an instance carry over every field (no silent fall-back to defaults)', floor=2)
+  mods = modules or [UQT, MMU, NMM, FCAST, 'transformation_instruction_generator', 'params_generator', 'transformations.quant_insert']
+  n_sites = 0
+  for short in mods:
+    m = ctx.repo.mod(short)
+    for f in m.functions.values():
+      for c in common.calls_in(f.node, nested=False):
+        s = ctx.repo.resolve_expr(m, c.func) if isinstance(c.func, (ast.Name, ast.Attribute)) else None
+        if s is None or s.kind != 'class' or not s.obj.is_dataclass:
+          continue
+        ci = s.obj
+        names = [fl.name for fl in ci.fields]
+        given = {}
+        for nme, a in zip(names, c.args):
+          given[nme] = a
+        for k in c.keywords:
+          if k.arg:
+            given[k.arg] = k.value
+        # how many fields are copied from one source object?
+        sources = {}
+        for nme, v in given.items():
+          if isinstance(v, ast.Attribute) and v.attr == nme:
+            sources.setdefault(ast.unparse(v.value), []).append(nme)
+        src = max(sources.items(), key=lambda kv: len(kv[1]), default=(None, []))
+        if len(src[1]) < 2:
+          continue
+        # the source must be an instance of the very class being constructed
+        env = callgraph.get(ctx).type_env(f)
+        try:
+          st = env.type_of(ast.parse(src[0], mode='eval').body, callgraph.get(ctx))
+        except SyntaxError:
+          st = None
+        if st is None or st.kind != 'instance':
+          # untyped source: decide by the field names - the only repository
+          # dataclass having all the copied fields must be the constructed one
+          cands = [k.fq for mm in ctx.repo.modules.values() for k in mm.classes.values()
+                   if k.is_dataclass and all(k.field(nm) is not None for nm in src[1])]
+          if cands != [ci.fq]:
+            ctx.unresolved(R)
+            continue
+        elif st.obj.fq != ci.fq:
+          continue
+        n_sites += 1
+        ctx.instance(R)
+        missing = [fl.name for fl in ci.fields if fl.name not in given and fl.default is not None]
+        ctx.check(R, not missing, c, f, f'{ci.name}(...) rebuilt from {src[0]}',
+                  f'{ci.name} is rebuilt from `{src[0]}` but {missing} are not carried over and fall back to their defaults '
+                  f'({", ".join(fl.name + "=" + ast.unparse(fl.default) for fl in ci.fields if fl.name in missing)})')
+  if n_sites < 2:
+    raise index.AnalysisError(f'{R}: only {n_sites} rebuild sites found')
